@@ -161,7 +161,7 @@ Qed.
 
 Lemma top_left_fold_plain : forall fs, presets_plain fs -> forall path v r pu ch,
   fs_read fs path = RdOk v -> has_key K_extends v = true ->
-  load_top fs path false = Ok (r, pu) ->
+  load_core fs path false = Ok (r, pu) ->
   chain_of fs v (Some path) ch -> Forall (fun m => is_doc (mval m) = true) ch ->
   r = strip (rm_ext (fold_chain ch)).
 Proof.
